@@ -111,3 +111,41 @@ func TriggerEquiv(a *cpu65c816.CPU, b *cpualt.CPU, ram1, ram2 *[1 << 24]byte, op
 		b.TriggerIRQ()
 	}
 }
+
+// ---- C12 / C01, pending interrupts: the entry sequences keep the state valid ----
+// The per-opcode Step lemmas assume a valid state (flag bytes in {0,1}) without a pending interrupt. A Step
+// with a pending interrupt first runs an entry sequence; these lemmas show that what the remaining code of
+// Step starts from is again such a state (flags in {0,1}; the stop condition untouched), so the per-opcode
+// results (cycles >= 1, total advanced by the reported count, stop flag) carry over.
+
+//@ lemma IntEntryValid65 property C12
+//@   harness flat65 cpu=c ram=ram op=op
+//@   ops 00
+//@   nosafety
+//@   ensures c.N <= 1 && c.V <= 1 && c.M <= 1 && c.X <= 1 && c.D <= 1 && c.I <= 1 && c.Z <= 1 && c.C <= 1 && c.B <= 1 && c.E <= 1
+//@   ensures c.Stopped == old(c.Stopped) && c.AllCycles == old(c.AllCycles) && c.I == 1
+//@   ensures c.M == old(c.M) && c.X == old(c.X) && c.E == old(c.E)
+
+func IntEntryValid65(c *cpu65c816.CPU, ram *[1 << 24]byte, op byte, nmi bool) {
+	if nmi {
+		c.VerifNMI()
+	} else {
+		c.VerifIRQ()
+	}
+}
+
+//@ lemma IntEntryValidAlt property C12
+//@   harness flatalt cpu=c ram=ram op=op
+//@   ops 00
+//@   nosafety
+//@   ensures c.N <= 1 && c.V <= 1 && c.M <= 1 && c.X <= 1 && c.D <= 1 && c.I <= 1 && c.Z <= 1 && c.C <= 1 && c.B <= 1 && c.E <= 1
+//@   ensures c.Stopped == old(c.Stopped) && c.AllCycles == old(c.AllCycles) && c.I == 1
+//@   ensures c.M == old(c.M) && c.X == old(c.X) && c.E == old(c.E)
+
+func IntEntryValidAlt(c *cpualt.CPU, ram *[1 << 24]byte, op byte, nmi bool) {
+	if nmi {
+		c.VerifNMI()
+	} else {
+		c.VerifIRQ()
+	}
+}
